@@ -82,5 +82,21 @@ CLAIMED['C10'] = dict(
     technique="TLA+ transcription of the scan loops checked by TLC against multiplicity definitions; spec->code case "
               "replay; code->spec trace validation by TLC",
     design="3/C10")
+CLAIMED['C09'] = dict(
+    text="TLC checks GroupBy.tla - stable key sort followed by the groupby scan (one action per row; a group closes when "
+         "the key changes) and groupselectmin/max's value-sort-then-key-sort pipeline - against the partition definition "
+         "of GroupDefs.tla: one group per distinct key in ascending order, members exactly the rows with that key in input "
+         "order, every row in exactly one group, counts add up, min/max selections are the definition's members; the model "
+         "of the code as found is a sensitivity run (presorted forwarded past the value sort). Every TLC-generated table x "
+         "key form (single, compound) is replayed on aggregate (callable, (field, fn), dict, list of tuples, __setitem__, "
+         "key=None), rowreduce, rowgroupmap, fold, groupselectfirst/last/min/max, mergeduplicates, merge, "
+         "groupcountdistinctvalues, valuecounts/valuecounter, each output value compared with the aggregation function "
+         "applied to exactly the spec's group rows; Hypothesis tables with identity-collecting aggregators are validated "
+         "by TLC (GroupTrace).",
+    note="itertools.groupby trusted; aggregation callables are the caller's; bounds <= 5 rows in the scan model, <= 3 rows "
+         "over 12 distinct rows in generated cases, <= 25 rows in traces.",
+    technique="TLA+ model of sort+groupby scan checked by TLC against a partition definition; spec->code case replay "
+              "over all aggregation-spec forms; code->spec trace validation by TLC",
+    design="3/C09")
 
 NOT_APPLICABLE = {}
